@@ -81,7 +81,7 @@ theorem decision_cases (x : Input) :
     ((x.originHeaders.get kContentEncoding = [] ∨ x.originHeaders.get kContentEncoding = b!"identity") ∧
       (decision x = ⟨.gzip, .none⟩ ∨ decision x = ⟨.brotli, .none⟩)) := by
   unfold decision
-  by_cases hg : (x.flag && canTransform (x.originHeaders.get kCacheControl)) = true
+  by_cases hg : (x.flag && canTransform (cacheControlOf x.originHeaders)) = true
   · rw [if_pos hg]
     generalize x.originHeaders.get kContentEncoding = ce
     generalize x.originHeaders.get kContentType = ct
@@ -191,7 +191,7 @@ theorem decision_add (x : Input) :
     ((decision x).add = .brotli →
       gateOpen x = true ∧ contains x.ae b!";" = false ∧ contains x.ae b!"br" = true) := by
   unfold decision gateOpen
-  by_cases hg : (x.flag && canTransform (x.originHeaders.get kCacheControl)) = true
+  by_cases hg : (x.flag && canTransform (cacheControlOf x.originHeaders)) = true
   · rw [if_pos hg, hg]
     generalize x.originHeaders.get kContentEncoding = ce
     generalize x.originHeaders.get kContentType = ct
@@ -272,118 +272,119 @@ theorem respond_gate_closed (E : Ext) (x : Input) (h : gateOpen x = false) :
   rw [respond_eq E x _ hd]
   simp [rewriteAdd, rewriteRemove, encode]
 
-/-- identity when off: with the rule flag off, or with a no-transform that the gate sees, the
-    response is the origin's.  C06-d excluded: a no-transform directive that is not on the first
-    Cache-Control line. -/
-theorem identity_when_off_partial (E : Ext) (x : Input) (hcls : inClass_C06_d x = false) :
-    offOk x (respond E x) = true := by
+/-- the gate's substring test sees every no-transform directive of a line that is part of the
+    string it looks at: token-level `no-transform` (any case, OWS around it) on `line`, and
+    `line` an infix of `s` ⇒ `canTransform s = false` -/
+theorem gate_sees_infix (s pre post line : Bytes) (hs : s = pre ++ line ++ post)
+    (h : (listMembers line).contains b!"no-transform" = true) : canTransform s = false := by
+  have hm : b!"no-transform" ∈ listMembers line := by simpa using h
+  unfold listMembers at hm
+  rw [List.mem_filter, List.mem_map] at hm
+  obtain ⟨⟨t, ht, hn⟩, _⟩ := hm
+  obtain ⟨pre', post', hl⟩ := mem_split1_infix 44 line t ht
+  obtain ⟨a, b, htr⟩ := trim_infix ows t
+  have hlow : toLower s = toLower (pre ++ pre' ++ a) ++ b!"no-transform" ++ toLower (b ++ post' ++ post) := by
+    unfold norm at hn
+    rw [hs, hl, htr, ← hn]
+    simp [toLower]
+  have hidx : (index b!"no-transform" (toLower s)).isSome = true := by
+    rw [hlow]; exact index_isSome_of_infix _ _ _
+  have hlen : s.length > 0 := by
+    cases s with
+    | nil => simp [toLower] at hlow
+    | cons c r => simp
+  unfold canTransform
+  rw [if_pos hlen]
+  cases hi : index b!"no-transform" (toLower s) with
+  | none => rw [hi] at hidx; cases hidx
+  | some i => rfl
+
+/-- the single-line form: a directive on a line makes `canTransform` false for that line -/
+theorem gate_sees_line (line : Bytes) (h : (listMembers line).contains b!"no-transform" = true) :
+    canTransform line = false :=
+  gate_sees_infix line [] [] line (by simp) h
+
+example : (listMembers b!"public,\tNo-Transform ").contains b!"no-transform" = true ∧
+    canTransform b!"public,\tNo-Transform " = false := by decide
+
+/-- the gate (proxy.go:272, all Cache-Control lines joined with ", ") sees a no-transform
+    directive on ANY Cache-Control line of the origin's response -/
+theorem gate_sees_any_line (h : Header) (hnt : noTransform h = true) :
+    canTransform (cacheControlOf h) = false := by
+  unfold noTransform at hnt
+  rw [List.any_eq_true] at hnt
+  obtain ⟨line, hmem, hdir⟩ := hnt
+  obtain ⟨pre, post, hj⟩ := mem_join_infix b!", " (h.values kCacheControl) line hmem
+  exact gate_sees_infix _ pre post line hj hdir
+
+/-- **Clause 3 at full strength** (no class excluded since the repair of C06-d): with the rule
+    flag off, or with a no-transform directive on any Cache-Control line, the response is the
+    origin's, up to the documented cache-status header. -/
+theorem identity_when_off : StatementOff := by
+  intro E x
   unfold offOk
   by_cases hoff : (!x.flag || noTransform x.originHeaders) = true
   · rw [if_pos hoff]
     have hg : gateOpen x = false := by
-      unfold inClass_C06_d at hcls
       cases hf : x.flag with
       | false => simp [gateOpen, hf]
       | true =>
         have : noTransform x.originHeaders = true := by simpa [hf] using hoff
-        simpa [this] using hcls
+        simp [gateOpen, gate_sees_any_line x.originHeaders this]
     rw [respond_gate_closed E x hg]
     simp [withoutAdditions, copied_eq, Header.del_set_same]
   · simp [hoff]
 
-/-- the two sub-cases the gate does handle, stated directly -/
+/-- the two sub-cases, stated directly -/
 theorem identity_when_flag_off (E : Ext) (x : Input) (h : x.flag = false) :
     respond E x = { status := 200, headers := copied x, body := x.originBody } :=
   respond_gate_closed E x (by simp [gateOpen, h])
 
 theorem identity_when_gate_sees_no_transform (E : Ext) (x : Input)
-    (h : canTransform (x.originHeaders.get kCacheControl) = false) :
+    (h : canTransform (cacheControlOf x.originHeaders) = false) :
     respond E x = { status := 200, headers := copied x, body := x.originBody } :=
   respond_gate_closed E x (by simp [gateOpen, h])
 
-/-- witness of C06-d: `Cache-Control: max-age=60` and `Cache-Control: no-transform` as two lines -/
+/-- the origin says no-transform (token level, any Cache-Control line) ⇒ the response is the
+    origin's plus the cache-status header, whatever the rule flag and the client -/
+theorem identity_when_no_transform (E : Ext) (x : Input) (h : noTransform x.originHeaders = true) :
+    respond E x = { status := 200, headers := copied x, body := x.originBody } :=
+  identity_when_gate_sees_no_transform E x (gate_sees_any_line x.originHeaders h)
+
+/-- regression instance (the former finding C06-d, repaired by a `fix:` commit):
+    `Cache-Control: max-age=60` and `Cache-Control: no-transform` as two lines -/
 def witnessD : Input :=
   { flag := true, ae := b!"gzip",
     originHeaders := Header.add (Header.add (Header.add [] kContentType b!"text/html")
       kCacheControl b!"max-age=60") kCacheControl b!"no-transform",
     originBody := b!"hello" }
 
-theorem off_fails_witness : offOk witnessD (respond toyExt witnessD) = false := by decide
+/-- the model (like the repaired code) tests the joined lines and leaves the response alone (it
+    used to be gzip-compressed: only the first line was looked at) -/
+example : cacheControlOf witnessD.originHeaders = b!"max-age=60, no-transform" ∧
+    witnessD.originHeaders.get kCacheControl = b!"max-age=60" ∧
+    noTransform witnessD.originHeaders = true ∧
+    decision witnessD = ⟨.none, .none⟩ ∧
+    (respond toyExt witnessD).body = b!"hello" ∧
+    (respond toyExt witnessD).headers.get kContentEncoding = [] := by decide
 
-theorem StatementOff_false : ¬ StatementOff := fun h => by
-  have := h toyExt witnessD
-  rw [off_fails_witness] at this
-  cases this
+example : offOk witnessD (respond toyExt witnessD) = true := identity_when_off toyExt witnessD
 
-example : inClass_C06_d { witnessD with originHeaders := Header.add [] kCacheControl b!"public, No-Transform" } = false ∧
-    noTransform (Header.add [] kCacheControl b!"public, No-Transform") = true := by decide
+/-- the directive on a third line, in another case and with OWS, behind a Brotli client -/
+def witnessD3 : Input :=
+  { flag := true, ae := b!"gzip, br",
+    originHeaders := Header.add (Header.add (Header.add (Header.add [] kContentType b!"application/json")
+      kCacheControl b!"public") kCacheControl b!"max-age=60") kCacheControl b!"immutable,\tNo-Transform ",
+    originBody := b!"{}" }
 
-/-- the gate's substring test does see every no-transform directive of the line it looks at:
-    token-level `no-transform` (any case, OWS around it) on a line ⇒ `canTransform line = false` -/
-theorem gate_sees_line (line : Bytes) (h : (listMembers line).contains b!"no-transform" = true) :
-    canTransform line = false := by
-  have hm : b!"no-transform" ∈ listMembers line := by simpa using h
-  unfold listMembers at hm
-  rw [List.mem_filter, List.mem_map] at hm
-  obtain ⟨⟨t, ht, hn⟩, _⟩ := hm
-  obtain ⟨pre, post, hl⟩ := mem_split1_infix 44 line t ht
-  obtain ⟨a, b, htr⟩ := trim_infix ows t
-  have hlow : toLower line = toLower (pre ++ a) ++ b!"no-transform" ++ toLower (b ++ post) := by
-    unfold norm at hn
-    rw [hl, htr, ← hn]
-    simp [toLower]
-  have hidx : (index b!"no-transform" (toLower line)).isSome = true := by
-    rw [hlow]; exact index_isSome_of_infix _ _ _
-  have hlen : line.length > 0 := by
-    cases line with
-    | nil => simp [toLower] at hlow
-    | cons c r => simp
-  unfold canTransform
-  rw [if_pos hlen]
-  cases hi : index b!"no-transform" (toLower line) with
-  | none => rw [hi] at hidx; cases hidx
-  | some i => rfl
+example : noTransform witnessD3.originHeaders = true ∧ decision witnessD3 = ⟨.none, .none⟩ ∧
+    (respond toyExt witnessD3).body = witnessD3.originBody := by decide
 
-example : (listMembers b!"public,\tNo-Transform ").contains b!"no-transform" = true ∧
-    canTransform b!"public,\tNo-Transform " = false := by decide
-
-/-- so class C06-d is exactly "the directive is on a Cache-Control line other than the first" -/
-theorem classD_directive_on_later_line (x : Input) (h : inClass_C06_d x = true) :
-    ∃ line ∈ (x.originHeaders.values kCacheControl).tail, (listMembers line).contains b!"no-transform" = true := by
-  unfold inClass_C06_d gateOpen at h
-  simp only [Bool.and_eq_true] at h
-  obtain ⟨⟨_, hcan⟩, hnt⟩ := h
-  unfold noTransform at hnt
-  rw [List.any_eq_true] at hnt
-  obtain ⟨line, hmem, hdir⟩ := hnt
-  have hget : x.originHeaders.get kCacheControl = (x.originHeaders.values kCacheControl).headD [] := rfl
-  rw [hget] at hcan
-  cases hv : x.originHeaders.values kCacheControl with
-  | nil => rw [hv] at hmem; cases hmem
-  | cons first rest =>
-    rw [hv] at hmem hcan
-    rcases List.mem_cons.1 hmem with h1 | h1
-    · subst h1
-      have := gate_sees_line line hdir
-      simp only [List.headD_cons] at hcan
-      rw [this] at hcan; cases hcan
-    · exact ⟨line, h1, hdir⟩
-
-/-- with a single Cache-Control line (or none) the no-transform clause holds in full -/
-theorem identity_when_off_single_line (E : Ext) (x : Input)
-    (h1 : (x.originHeaders.values kCacheControl).length ≤ 1) : offOk x (respond E x) = true := by
-  apply identity_when_off_partial
-  cases hc : inClass_C06_d x with
-  | false => rfl
-  | true =>
-    obtain ⟨line, hmem, _⟩ := classD_directive_on_later_line x hc
-    cases hv : x.originHeaders.values kCacheControl with
-    | nil => rw [hv] at hmem; cases hmem
-    | cons a t =>
-      rw [hv] at h1 hmem
-      cases t with
-      | nil => cases hmem
-      | cons b u => simp at h1
+-- non-vacuity: the clause is about exchanges that WOULD be transformed without the directive
+-- (same exchange, directive removed: gzip is added), and about a single-line directive too
+example : decision { witnessD with originHeaders := Header.add (Header.add [] kContentType b!"text/html") kCacheControl b!"max-age=60" } = ⟨.gzip, .none⟩ ∧
+    noTransform (Header.add [] kCacheControl b!"public, No-Transform") = true ∧
+    canTransform (cacheControlOf (Header.add [] kCacheControl b!"public, No-Transform")) = false := by decide
 
 /-! ### clause 4: no stale Content-Length -/
 
@@ -582,18 +583,17 @@ example :
     the model's response -/
 def Statement : Prop := ∀ (E : Ext), E.Lawful → ∀ x : Input, holds E x (respond E x) = true
 
-/-- outside the three remaining finding classes (C06-b, C06-c, C06-d; C06-a is repaired) the
+/-- outside the two remaining finding classes (C06-b, C06-c; C06-a and C06-d are repaired) the
     oracle accepts the model's response, for all inputs and every codec satisfying the laws -/
 theorem holds_partial (E : Ext) (hE : E.Lawful) (x : Input)
-    (hb : inClass_C06_b x = false)
-    (hc : inClass_C06_c x = false) (hd : inClass_C06_d x = false) :
+    (hb : inClass_C06_b x = false) (hc : inClass_C06_c x = false) :
     holds E x (respond E x) = true := by
   unfold holds
   cases hdom : inDomain E x with
   | false => rfl
   | true =>
     simp [content_preserved E hE x, delivered_encoding_allowed_partial E x hc,
-      identity_when_off_partial E x hd, length_holds_model E x hdom, vary_kept_partial E x hdom hb]
+      identity_when_off E x, length_holds_model E x hdom, vary_kept_partial E x hdom hb]
 
 theorem Statement_false : ¬ Statement := fun h => by
   have := h toyExt toyExt_lawful witnessB
@@ -601,14 +601,19 @@ theorem Statement_false : ¬ Statement := fun h => by
   rw [hf] at this
   cases this
 
-/-- non-vacuity of `holds_partial`: a gunzip + Brotli exchange outside all three classes -/
+/-- non-vacuity of `holds_partial`: a gunzip + Brotli exchange outside both classes -/
 def okExchange : Input :=
   { flag := true, ae := b!"gzip, deflate, br",
     originHeaders := Header.add (Header.add (Header.add [] kContentEncoding b!"gzip") kVary b!"Origin") kContentLength b!"26",
     originBody := toyExt.gzipEnc b!"hello" }
 
 example : inClass_C06_b okExchange = false ∧ inClass_C06_c okExchange = false ∧
-    inClass_C06_d okExchange = false ∧ inDomain toyExt okExchange = true ∧ decision okExchange = ⟨.brotli, .gzip⟩ ∧
+    inDomain toyExt okExchange = true ∧ decision okExchange = ⟨.brotli, .gzip⟩ ∧
     holds toyExt okExchange (respond toyExt okExchange) = true := by decide
+
+-- the former witness of C06-d (no-transform on the second Cache-Control line) is outside both
+-- remaining classes and the whole oracle accepts the model's (= the repaired code's) response
+example : holds toyExt witnessD (respond toyExt witnessD) = true :=
+  holds_partial toyExt toyExt_lawful witnessD (by decide) (by decide)
 
 end Props.C06
